@@ -14,7 +14,7 @@ package scan
 //@   requires it != nil && lookbackDelta >= 0 && it.delta >= lookbackDelta
 //@   requires memo_inv(it.sn, it.sT, it.cur, it.hasPrev, it.lastSeek, it.delta)
 //@   requires ts - offset >= it.lastSeek
-//@   assigns ghost cur, ghost hasPrev, ghost lastSeek, ghost failed
+//@   assigns ghost cur@it, ghost hasPrev@it, ghost lastSeek@it, ghost failed@it
 //@   ensures[C15] storage-error-surfaces: it.failed ==> result3 != nil && !result2
 //@   ensures[C02] floats-never-fail: !it.failed && it.floats ==> result3 == nil
 //@   ensures memo_inv-kept: !it.failed ==> memo_inv(it.sn, it.sT, it.cur, it.hasPrev, it.lastSeek, it.delta) && it.lastSeek == ts-offset
@@ -115,3 +115,71 @@ package scan
 //@   loop 1 invariant out-in-window: forall p in 0..len(out) :: old(mint) <= out[p].T && out[p].T <= maxt
 //@   loop 1 invariant scan-state: buf != nil && buf.rnext >= 0 && mint >= old(mint) && buf.rT == it.bT && buf.rV == it.bV && buf.rend == it.bcur &&
 //@       (forall j in 0..it.bcur :: it.bT[j] < maxt)
+
+// ---- vector_selector.go: vectorSelector.Next (C02, C07, C18) --------------------------------------
+// Object invariant once the series are loaded: one scanner per series, each with its own memoized
+// iterator (look-back at least the lookback delta) that has not been sought beyond the cursor.
+//@ pred vsStruct(o) = len(o.scanners) == len(o.series) &&
+//@     (forall i in 0..len(o.scanners) :: o.scanners[i].samples != nil && o.scanners[i].signature < len(o.series) && o.scanners[i].samples.delta >= o.lookbackDelta)
+//@ pred vsMemo(o, from, to) = forall i in from..to ::
+//@         memo_inv(o.scanners[i].samples.sn, o.scanners[i].samples.sT, o.scanners[i].samples.cur, o.scanners[i].samples.hasPrev, o.scanners[i].samples.lastSeek, o.scanners[i].samples.delta)
+// Every scanner has its own iterator: ghost field owner (the index of the scanner an iterator belongs to).
+//@ ghost *promstorage.MemoizedSeriesIterator owner int
+//@ pred vsDistinct(o) = forall i in 0..len(o.scanners) :: o.scanners[i].samples.owner == i
+//@ pred vsLoaded(o) = vsStruct(o) && vsMemo(o, 0, len(o.scanners)) && vsDistinct(o)
+//@ pred vsSought(o, from, to, bound) = forall i in from..to :: o.scanners[i].samples.lastSeek <= bound
+//@ pred vsShape(o) = o != nil && o.vectorPool != nil && o.step >= 0 && o.numSteps >= 1 && (o.step == 0 ==> o.numSteps == 1) && o.lookbackDelta >= 0
+//@ pred vsBatch(o, vectors, ts) = vsShape(o) && vsStruct(o) && vsDistinct(o) && !isnil(vectors) && fresh(vectors) && len(vectors) >= 1 && len(vectors) <= o.numSteps &&
+//@     (len(vectors) == o.numSteps || vectors[len(vectors)-1].T + o.step > o.maxt) &&
+//@     ts == old(o.currentStep) && o.currentStep == old(o.currentStep) && o.step == old(o.step) && o.numSteps == old(o.numSteps) && o.maxt == old(o.maxt)
+//@ pred vsVectors(o, vectors, ts) = forall k in 0..len(vectors) :: vectors[k].T == ts + k*o.step && vectors[k].T <= o.maxt &&
+//@     len(vectors[k].SampleIDs) == len(vectors[k].Samples) && allocated(vectors[k].SampleIDs) && allocated(vectors[k].Samples)
+//@ func (*vectorSelector).loadSeries
+//@   trusted series loading runs storage callbacks (Labels, Iterator) and wraps each iterator; assumed to establish the object invariant
+//@   requires o != nil && ctx != nil
+//@   panics may
+//@   assigns scan.vectorSelector.scanners, scan.vectorSelector.series, scan.vectorSelector.once, model.VectorPool.stepSize
+//@   ensures result == nil ==> vsLoaded(o) && vsSought(o, 0, len(o.scanners), o.currentStep - o.offset)
+//@ func (*vectorSelector).Next
+//@   requires ctx != nil && vsShape(o)
+//@   requires series-loaded-once: o.once != 0 ==> vsLoaded(o) && vsSought(o, 0, len(o.scanners), o.currentStep - o.offset)
+//@   panics may
+//@   ensures[C18] error-means-no-batch: result1 != nil ==> isnil(result0)
+//@   ensures[C07,C18] ended-iff-past-maxt: result1 == nil ==> (isnil(result0) <==> old(o.currentStep) > o.maxt)
+//@   ensures[C07,C18] batch-size: result1 == nil && !isnil(result0) ==> 1 <= len(result0) && len(result0) <= o.numSteps
+//@   ensures[C02,C07,C18] one-vector-per-step: result1 == nil && !isnil(result0) ==> forall k in 0..len(result0) ::
+//@       result0[k].T == old(o.currentStep) + k*old(o.step)
+//@   ensures[C07,C18] within-window: result1 == nil && !isnil(result0) ==> forall k in 0..len(result0) :: result0[k].T <= o.maxt
+//@   ensures[C07,C18] batch-is-maximal: result1 == nil && !isnil(result0) ==>
+//@       len(result0) == o.numSteps || result0[len(result0)-1].T + old(o.step) > o.maxt
+//@   ensures[C07,C18] cursor-advances: result1 == nil && !isnil(result0) ==>
+//@       o.currentStep == old(o.currentStep) + imax(old(o.step), 1) * o.numSteps
+//@   ensures[C18] ids-and-values-pair-up: result1 == nil && !isnil(result0) ==> forall k in 0..len(result0) :: len(result0[k].SampleIDs) == len(result0[k].Samples)
+//@   ensures[C02] invariant-kept: result1 == nil && !isnil(result0) ==> vsLoaded(o) && vsSought(o, 0, len(o.scanners), o.currentStep - o.offset)
+//@   at scan.selectPoint assert[C02,C07] each-series-is-asked-at-the-steps-time-with-the-operators-lookback-and-offset:
+//@       $it == o.scanners[i].samples && $ts == ts + currStep*o.step && $lookbackDelta == o.lookbackDelta && $offset == o.offset
+//@   at line "vectors[currStep].SampleIDs = append(vectors[currStep].SampleIDs, series.signature)" assert[C02] sample-goes-to-its-steps-vector:
+//@       ok && vectors[currStep].T == seriesTs && series.signature == o.scanners[i].signature
+//@   at line "vectors[currStep].Samples = append(vectors[currStep].Samples, v)" assert[C02,C18] selected-value-is-emitted: v == callres("scan.selectPoint", ncalls("scan.selectPoint"), 1) && !isstale(v)
+//@   loop 0 invariant grid0: vsShape(o) && vsLoaded(o) && 0 <= currStep && currStep <= o.numSteps && len(vectors) == currStep && !isnil(vectors) && fresh(vectors) &&
+//@       stepTs == ts + currStep*o.step && ts <= o.maxt && ts == old(o.currentStep) && o.currentStep == old(o.currentStep) && o.step == old(o.step) && o.numSteps == old(o.numSteps) && o.maxt == old(o.maxt)
+//@   loop 0 invariant vectors0: forall k in 0..currStep :: vectors[k].T == ts + k*o.step && vectors[k].T <= o.maxt &&
+//@       len(vectors[k].SampleIDs) == len(vectors[k].Samples) && allocated(vectors[k].SampleIDs) && allocated(vectors[k].Samples)
+//@   loop 0 invariant sought0: vsSought(o, 0, len(o.scanners), ts - o.offset)
+//@   loop 1 invariant batch1a: vsShape(o) && 0 <= i && i <= len(o.scanners)
+//@   loop 1 invariant loaded1: vsStruct(o) && vsDistinct(o)
+//@   loop 1 invariant memo1: vsMemo(o, 0, len(o.scanners))
+//@   loop 1 invariant batch1b: !isnil(vectors) && fresh(vectors) && len(vectors) >= 1 && len(vectors) <= o.numSteps
+//@   loop 1 invariant batch1c: len(vectors) == o.numSteps || vectors[len(vectors)-1].T + o.step > o.maxt
+//@   loop 1 invariant batch1d: ts == old(o.currentStep) && o.currentStep == old(o.currentStep) && o.step == old(o.step) && o.numSteps == old(o.numSteps) && o.maxt == old(o.maxt)
+//@   loop 1 invariant vectors1: vsVectors(o, vectors, ts)
+//@   loop 1 invariant sought1: vsSought(o, 0, i, vectors[len(vectors)-1].T - o.offset) && vsSought(o, i, len(o.scanners), ts - o.offset)
+//@   loop 2 invariant batch2: vsBatch(o, vectors, ts) && 0 <= i && i < len(o.scanners) && 0 <= currStep && currStep <= len(vectors) && seriesTs == ts + currStep*o.step &&
+//@       series.samples == o.scanners[i].samples && series.signature == o.scanners[i].signature
+//@   loop 2 invariant memo2-others: vsMemo(o, 0, i) && vsMemo(o, i+1, len(o.scanners))
+//@   loop 2 invariant memo2-this: memo_inv(o.scanners[i].samples.sn, o.scanners[i].samples.sT, o.scanners[i].samples.cur, o.scanners[i].samples.hasPrev, o.scanners[i].samples.lastSeek, o.scanners[i].samples.delta)
+//@   loop 2 invariant vectors2: vsVectors(o, vectors, ts)
+//@   loop 2 invariant sought2-done: vsSought(o, 0, i, vectors[len(vectors)-1].T - o.offset)
+//@   loop 2 invariant sought2-todo: vsSought(o, i+1, len(o.scanners), ts - o.offset)
+//@   loop 2 invariant sought2-this: o.scanners[i].samples.lastSeek <= seriesTs - o.offset &&
+//@       (currStep >= 1 ==> o.scanners[i].samples.lastSeek <= vectors[currStep-1].T - o.offset)
